@@ -1,27 +1,35 @@
 #!/usr/bin/env python3
-"""Pre-screen a seeded change without touching /repo: run checks against a scratch worktree.
+"""Pre-screen a seeded change without touching /repo.
 
-usage: mutscreen.py <worktree with the change applied> <check id> [<check id> ...]
-A private copy of the harness (path dependency rewritten to the worktree) with its own cargo target and
-work directory is used.  This is only a screening aid; the record in /verif/seeded/<id>/meta.json comes
-from applying the patch to /repo itself as the brief prescribes.
+usage: mutscreen.py <patch.diff | directory containing patch.diff> <check id> [<check id> ...]
+A private copy of /repo's current working tree (incl. uncommitted hook edits) gets the patch applied; a private copy of
+the harness (path dependency rewritten to that copy) with its own cargo target and work directory is used.  Screening aid
+only; the record in /verif/seeded/<name>/meta.json comes from applying the patch to /repo itself (tools/seeded_run.py).
 """
 import os, shutil, subprocess, sys
-wt = os.path.abspath(sys.argv[1])
+src = os.path.abspath(sys.argv[1])
+patch = src if os.path.isfile(src) else os.path.join(src, "patch.diff")
 ids = sys.argv[2:]
-name = os.path.basename(wt)
+name = os.path.basename(os.path.dirname(patch)) if os.path.isfile(src) else os.path.basename(src.rstrip("/"))
 base = f"/verif/.cache/mutscreen/{name}"
+repo = os.path.join(base, "repo")
+if os.path.exists(repo):
+    shutil.rmtree(repo)
+os.makedirs(base, exist_ok=True)
+shutil.copytree("/repo", repo, ignore=shutil.ignore_patterns("target", ".git"), symlinks=True)
+r = subprocess.run(["patch", "-p1", "-i", patch], cwd=repo, capture_output=True, text=True)
+if r.returncode != 0:
+    print("patch failed:", r.stdout[-500:], r.stderr[-500:]); sys.exit(2)
 h = os.path.join(base, "harness")
 if os.path.exists(h):
     shutil.rmtree(h)
 shutil.copytree("/verif/harness", h, ignore=shutil.ignore_patterns("target"))
-ct = open(os.path.join(h, "Cargo.toml")).read().replace('path = "/repo/moyo"', f'path = "{wt}/moyo"')
+ct = open(os.path.join(h, "Cargo.toml")).read().replace('path = "/repo/moyo"', f'path = "{repo}/moyo"')
 open(os.path.join(h, "Cargo.toml"), "w").write(ct)
 cfg = open(os.path.join(h, ".cargo/config.toml")).read().replace("/verif/.cache/target", os.path.join(base, "target"))
 open(os.path.join(h, ".cargo/config.toml"), "w").write(cfg)
-env = dict(os.environ, VERIF_REPO=wt, VERIF_HARNESS=h, VERIF_TARGET=os.path.join(base, "target"), VERIF_WORK=os.path.join(base, "work"))
+env = dict(os.environ, VERIF_REPO=repo, VERIF_HARNESS=h, VERIF_TARGET=os.path.join(base, "target"), VERIF_WORK=os.path.join(base, "work"))
 os.makedirs(env["VERIF_WORK"], exist_ok=True)
-rc = 0
 for pid in ids:
     r = subprocess.run([sys.executable, "/verif/check.py", pid, "--tier", "quick"], env=env, capture_output=True, text=True)
     lines = [l for l in r.stdout.splitlines() if l.startswith(("VIOLATION", "KNOWN", "[" + pid))]
